@@ -11,6 +11,7 @@ import Glas.Model.UnionFindCmd
 import Glas.Model.TySpecCmd
 import Glas.Model.ImportsCmd
 import Glas.Model.FieldsCmd
+import Glas.Model.HighlightCmd
 /-! The executable model behind a one-line-in, one-line-out protocol (tab-separated fields). -/
 open Glas
 
@@ -54,7 +55,10 @@ def dispatch (line : String) : String :=
                         | none =>
                           match FieldsCmd.run args with
                           | some r => r
-                          | none => "bad-op"
+                          | none =>
+                            match HighlightCmd.run args with
+                            | some r => r
+                            | none => "bad-op"
 
 partial def loop (h : IO.FS.Stream) (out : IO.FS.Stream) : IO Unit := do
   let line ← h.getLine
